@@ -5,6 +5,7 @@ import Rbacx.Spec.Combining
 import Rbacx.Spec.Operators
 import Rbacx.Spec.DenyByDefault
 import Rbacx.Spec.Engine
+import Rbacx.Proofs.Total
 /-
   Driver.Main — one JSON command per input line, one JSON answer per output line.
 -/
@@ -130,6 +131,9 @@ def handle (j : Json) : Except String Json := do
       | .error .typeMismatch => .error "ConditionTypeError"
       | .error (.raised cls) => .error cls
     pure (.arr ((asgiCall o acfg st builder engine).map encAction).toArray)
+  | "wellformed" => do
+    let pol ← fieldVal j "policy"
+    pure (.bool (docWF pol))
   | "eval-policy" => do
     let pol ← fieldVal j "policy"
     let env ← fieldVal j "env"
